@@ -220,6 +220,9 @@ func (l *Gpos4_1) encode() []byte {
 			}
 		}
 	}
+	if baseArrayOffset > 0xFFFF {
+		panic("Gpos4_1 too large")
+	}
 	res := make([]byte, 0, total)
 
 	res = append(res,
@@ -258,6 +261,9 @@ func (l *Gpos4_1) encode() []byte {
 			if rec.IsEmpty() {
 				res = append(res, 0, 0)
 				continue
+			}
+			if offs > 0xFFFF {
+				panic("Gpos4_1 too large")
 			}
 			res = append(res,
 				byte(offs>>8), byte(offs),
